@@ -38,6 +38,7 @@ import (
 
 	"github.com/oxia-db/oxia/proto"
 	"github.com/oxia-db/oxia/server/auth"
+	"github.com/oxia-db/oxia/server/kv"
 )
 
 const (
@@ -131,6 +132,15 @@ func validateClientWrite(write *proto.WriteRequest) error {
 	for _, put := range write.Puts {
 		if strings.HasPrefix(put.Key, constant.InternalKeyPrefix) {
 			return status.Errorf(codes.InvalidArgument, "oxia: key %q is reserved", put.Key)
+		}
+		if len(put.SequenceKeyDelta) > 0 {
+			// The malformed sequential puts can be told from the request alone
+			if put.PartitionKey == nil {
+				return status.Error(codes.InvalidArgument, kv.ErrMissingPartitionKey.Error())
+			}
+			if put.SequenceKeyDelta[0] == 0 {
+				return status.Error(codes.InvalidArgument, kv.ErrSequenceDeltaIsZero.Error())
+			}
 		}
 	}
 	for _, del := range write.Deletes {
